@@ -774,12 +774,16 @@ def run_property(prop, body, tier, seed):
         except Exception:  # noqa: BLE001
             pass
         native_run = [f for f in tb if "/pyvc/" in f.filename.replace(os.sep, "/")]
-        if repo and tb and os.path.abspath(tb[-1].filename).startswith(repo) and not any(
+        # the exception crossed natively running code under test: the innermost repository frame lies below the innermost frame of
+        # the checker (the exception itself may come from a library the repository called, e.g. json.loads inside caching.decode)
+        i_repo = max((i for i, f in enumerate(tb) if os.path.abspath(f.filename).startswith(repo)), default=-1) if repo else -1
+        i_verif = max((i for i, f in enumerate(tb) if os.path.abspath(f.filename).startswith(ROOT + os.sep)), default=-1)
+        if repo and tb and i_repo > i_verif and not any(
                 f.filename.endswith(("interp.py", "models.py", "ops.py", "layout.py")) for f in native_run):
             # the code under test raised natively inside a bounded scenario (not under the interpreter): that is an outcome of the
             # scenario - on the unchanged tree no scenario raises - not a defect of the checker
             text = "".join(traceback.format_exception_only(type(e), e)).strip()[:300]
-            where = f"{os.path.relpath(tb[-1].filename, repo)}:{tb[-1].lineno} in {tb[-1].name}"
+            where = f"{os.path.relpath(tb[i_repo].filename, repo)}:{tb[i_repo].lineno} in {tb[i_repo].name}"
             ses.bounded_check(f"{prop}/bounded/scenario-completes-without-exception", False, bound="the check's bounded scenarios",
                               function=where, detail={"exception": text, "raised_at": where},
                               replay=lambda m: {"confirmed": True, "input": "the scenario the check was running (see traceback)",
